@@ -26,7 +26,43 @@ impl ValidatorParser {
         for attr in attrs {
             if attr.path().is_ident("validate") {
                 found_validator = true;
-                // Parse the tokens inside the validate attribute
+
+                // Walk the attribute's own structure: validate(length(min = 1, message = "..."), email).
+                // Words, parentheses and commas inside a message are then just text.
+                let mut parsed_attrs = validator_attrs.clone();
+                let parsed = attr.parse_nested_meta(|meta| {
+                    if meta.path.is_ident("email") {
+                        parsed_attrs.email = true;
+                        if let Some(message) = Self::parse_validator_args(&meta)?.2 {
+                            parsed_attrs.custom_message = Some(message);
+                        }
+                    } else if meta.path.is_ident("url") {
+                        parsed_attrs.url = true;
+                        if let Some(message) = Self::parse_validator_args(&meta)?.2 {
+                            parsed_attrs.custom_message = Some(message);
+                        }
+                    } else if meta.path.is_ident("length") {
+                        let (min, max, message) = Self::parse_validator_args(&meta)?;
+                        parsed_attrs.length = Some(LengthConstraint {
+                            min: min.filter(|v| *v >= 0.0).map(|v| v as u64),
+                            max: max.filter(|v| *v >= 0.0).map(|v| v as u64),
+                            message,
+                        });
+                    } else if meta.path.is_ident("range") {
+                        let (min, max, message) = Self::parse_validator_args(&meta)?;
+                        parsed_attrs.range = Some(RangeConstraint { min, max, message });
+                    } else {
+                        Self::parse_validator_args(&meta)?;
+                    }
+                    Ok(())
+                });
+
+                if parsed.is_ok() {
+                    validator_attrs = parsed_attrs;
+                    continue;
+                }
+
+                // Unusual attribute syntax: fall back to scanning the token string
                 if let Ok(tokens) = syn::parse2::<syn::MetaList>(attr.meta.to_token_stream()) {
                     // Convert tokens to string and do basic parsing for now
                     let tokens_str = tokens.tokens.to_string();
@@ -56,6 +92,63 @@ impl ValidatorParser {
             Some(validator_attrs)
         } else {
             None
+        }
+    }
+
+    /// Read the arguments of one validator: `(min = .., max = .., message = "..")`,
+    /// `= value` or nothing. Returns (min, max, message); other keys are skipped.
+    fn parse_validator_args(
+        meta: &syn::meta::ParseNestedMeta,
+    ) -> syn::Result<(Option<f64>, Option<f64>, Option<String>)> {
+        let (mut min, mut max, mut message) = (None, None, None);
+
+        if meta.input.peek(syn::token::Paren) {
+            meta.parse_nested_meta(|arg| {
+                if arg.input.peek(syn::Token![=]) {
+                    let value: syn::Expr = arg.value()?.parse()?;
+                    if arg.path.is_ident("min") {
+                        min = Self::numeric_literal(&value);
+                    } else if arg.path.is_ident("max") {
+                        max = Self::numeric_literal(&value);
+                    } else if arg.path.is_ident("message") {
+                        if let syn::Expr::Lit(syn::ExprLit {
+                            lit: syn::Lit::Str(text),
+                            ..
+                        }) = &value
+                        {
+                            message = Some(text.value());
+                        }
+                    }
+                } else if arg.input.peek(syn::token::Paren) {
+                    let content;
+                    syn::parenthesized!(content in arg.input);
+                    let _: proc_macro2::TokenStream = content.parse()?;
+                }
+                Ok(())
+            })?;
+        } else if meta.input.peek(syn::Token![=]) {
+            let _: syn::Expr = meta.value()?.parse()?;
+        }
+
+        Ok((min, max, message))
+    }
+
+    /// Value of an integer or float literal, with an optional leading minus sign
+    fn numeric_literal(expr: &syn::Expr) -> Option<f64> {
+        match expr {
+            syn::Expr::Lit(syn::ExprLit { lit, .. }) => match lit {
+                syn::Lit::Int(int) => int.base10_parse::<f64>().ok(),
+                syn::Lit::Float(float) => float.base10_parse::<f64>().ok(),
+                _ => None,
+            },
+            syn::Expr::Unary(syn::ExprUnary {
+                op: syn::UnOp::Neg(_),
+                expr,
+                ..
+            }) => Self::numeric_literal(expr).map(|value| -value),
+            syn::Expr::Paren(paren) => Self::numeric_literal(&paren.expr),
+            syn::Expr::Group(group) => Self::numeric_literal(&group.expr),
+            _ => None,
         }
     }
 
